@@ -14,7 +14,7 @@ func init() {
 			"plus 1-3 shared files read/written/truncated by 2-3 workers through separate handles, " +
 			"plus 1-4 directories that do not exist at the start and that 2..all workers create at the same point of their streams (rendezvous, then Mkdir of every path component, 'exists' accepted, then create+write+close of an own file in it; the directory then is one more shared directory of the stream), plus Flush(\"\"), Flush(dir), MarshalManifest and Sync callers; every Keep write (PutB) parks at a controller that picks completion order, delay in events, failure or hold. " +
 			"Oracles: C-1 every read/stat/final content of an own file equals an exact sequential byte-array model (this includes: a file whose create+write+close returned no error is in the final tree with its content, whoever else made its directory at the same time); C-2 the call/return history of each shared file is linearizable (porcupine); C-3 every saved manifest reloads over the stub (which serves acknowledged blocks only) and every own file in it holds a content it had between the last state known before the save and the state after it; " +
-			"stream savefault: a Sync/MarshalManifest/Flush that fails half-way (LocalLocator cannot reach Keep for a remotely signed segment, or a block write is refused) while gated block writes of the same save are in flight; right after it returns every file is rewritten, the gate opens, and every file must read as last written, a later fault-free save must succeed and reproduce it (S1, S2); " +
+			"stream savefault: a Sync/MarshalManifest that fails half-way (LocalLocator cannot reach Keep for a remotely signed segment) while gated block writes of the same save are in flight; right after it returns every file is rewritten, the gate opens, and every file must read as last written, a later fault-free save must succeed and reproduce it (S1, S2); " +
 			"C-4 no 30 s without any progress while no Keep write is parked; C-5 no race-detector report with an access stack in fs_*.go/throttle.go/contextgroup.go. " +
 			"non-trivial = at least one Keep write was parked and at least one manifest reloaded; distinct = distinct (workers, block size, fault mode, shared files, stall period, reordering seen, failures seen, overlap class, overlapping Mkdir calls of one directory seen) tuples",
 		Assume: []string{
